@@ -1,31 +1,45 @@
 import WV.Proofs.C11
 
 /-!
-The finite certificates of C11, evaluated.  The reachable set of the two-sided abstraction
-(`WV.C11.reachable`, recomputed from the GENERATED Manager / Connector / DCP / TrafficTimer tables on
-every build) has 50 942 states × 24 events — far beyond `decide +kernel` (≈10³ states × 25 events in
-minutes, DESIGN §4) — so these three evaluations, and nothing else, use `native_decide`.  It adds
-`Lean.ofReduceBool` / `Lean.trustCompiler` to the axioms of the theorems that use them (reported per
-theorem in the evidence).  The lifting to all runs (`Cert.cert_sound`, `Cert.converge_sound`) is
-ordinary kernel-checked induction.
+The finite certificates of C11, evaluated.  Two bounded environments of the same `WV.C11.step`, both recomputed
+from the GENERATED Manager / Connector / DCP / TrafficTimer tables on every build:
+
+* `absK` — at most 2 links at a time, both orders of the side strings, every network with at least one
+  direction of dialling: 54 726 reachable states;
+* `absS` — at most 1 link at a time, every such network, plus silent loss of either direction, the leader's
+  ping interval timer, Ping/Pong/Ack on the wire and one application record per side that is re-sent on every
+  new connection: 209 606 reachable states.
+
+Far beyond `decide +kernel` (≈10³ states × 25 events in minutes, DESIGN §4), so these five evaluations, and
+nothing else, use `native_decide` (≈ 30 s with the precompiled WVExec library).  It adds `Lean.ofReduceBool` /
+`Lean.trustCompiler` to the axioms of the theorems that use them (reported per theorem in the evidence).  The
+lifting to all runs (`Cert.cert_sound`, `Cert.converge_sound`) is ordinary kernel-checked induction.
 -/
 namespace WV.C11.Certs
 open WV.C11 WV.C11.Cert
 
-/-- the reachable set, if the search was exhaustive (the frontier became empty below `STATE_LIMIT`);
-    else nothing: every certificate then fails at once -/
-def R : List Sys :=
-  let r := reachable 100000
+/-- the reachable set of the bounded environment `p`, if the search was exhaustive (the frontier became empty
+    below `STATE_LIMIT`); else nothing: every certificate then fails at once -/
+def RP (p : Abs) : List Sys :=
+  let r := reachableP p 100000
   if r.2 then r.1.toList else []
 
-/-- closed under every enabled event, every enabled step safe -/
-theorem cert : certList R = true := by native_decide
+def R : List Sys := RP absK
+def RS : List Sys := RP absS
 
-/-- backward fixpoint of cooperative convergence covers the whole reachable set -/
-theorem certConverge : convergeCert 120 R = true := by native_decide
+/-- `absK`: closed under every enabled event, every enabled step safe -/
+theorem cert : certList absK R = true := by native_decide
+
+/-- `absK`: backward fixpoint of cooperative convergence covers the whole reachable set -/
+theorem certConverge : convergeCert absK 120 R = true := by native_decide
 
 /-- in every state of the certificate at least one direction of dialling works -/
 theorem reach_flags : ∀ t ∈ R, (t.ra || t.rb) = true := by native_decide
+
+/-- `absS` (one link at a time, with silent loss, the ping timer and records that are re-sent): the same two -/
+theorem certS : certList absS RS = true := by native_decide
+
+theorem certConvergeS : convergeCert absS 200 RS = true := by native_decide
 
 theorem reach_mem (s : Sys) (hr : Reach s) : s ∈ R := (cert_sound cert s hr).1
 
@@ -34,5 +48,11 @@ theorem reach_safe (s : Sys) (hr : Reach s) (e : Event) (he : enabledK s e = tru
 
 theorem reach_converges (s : Sys) (hr : Reach s) : CanConverge s :=
   converge_sound certConverge s (reach_mem s hr)
+
+theorem reachS_safe (s : Sys) (hr : ReachP absS s) (e : Event) (he : enabledP absS s e = true) : safeStep s e = true :=
+  (cert_sound certS s hr).2 e he
+
+theorem reachS_converges (s : Sys) (hr : ReachP absS s) : CanConvergeP absS s :=
+  converge_sound certConvergeS s ((cert_sound certS s hr).1)
 
 end WV.C11.Certs
